@@ -102,14 +102,10 @@ THEOREMS = ["link_tables", "validTree_iff", "validTree_connects", "aStar_path", 
             "avoidDeadLinks_valid", "legacy_two_parents_witness",
             "copyAndDisconnect_total", "repairOne_only_disconnected", "route_only_failure",
             "route_succeeds_strongly_connected", "stronglyConnected_complete", "stronglyConnected_iff",
-<<<<<<< HEAD
             "route_disconnected_is_real", "nerNet_leaves_are_dests", "routeNet_valid",
             # round 4: all nets of one route() call
             "routeNets_independent", "routeNetsRun_eq", "routeNets_valid", "routeNets_only_failure"]
-=======
-            "route_disconnected_is_real", "nerNet_leaves_are_dests", "routeNet_valid"]
 THEOREMS += ['gen_opp']   # translator tie: generated function bodies = model (Props/C03Gen.lean)
->>>>>>> gen-eq
 
 RULE = ("machines 1x1..12x12 (incl. 1xN, 2xN), torus / mesh / partly wrapped, 0-30% dead directed links (half of them "
         "dead in one direction only), dead chips; single-net stream: one net per case with fan-out 0-12, sinks on the source chip, "
